@@ -179,6 +179,14 @@ def run(ctx, rep):
     rep.check(bool(ut) and ('fix', True) in gs, 'R-C05-3', 'file_post: modification time restored only when fixing', fp.file, '', function='file_post', construct='utime guard')
 
     hash_provenance_rules(P, rep, 'R-C05-5', st)
+    # recovery must never decode from parity bytes that were never written: the valid-size typestate of the parity files
+    from .C17 import valid_size_rules
+    valid_size_rules(P, rep, 'R-C05-7')
+    pr = P.fn('parity_read')
+    chk = [b for b in range(len(pr.blocks)) if pr.term(b).op == 'br' and len(pr.term(b).ops) == 3 and 'valid_size' in pr.expr(pr.term(b).ops[0])]
+    rd = list(pr.calls('pread'))
+    rep.rule('R-C05-7r', 'parity_read refuses positions beyond valid_size before reading', 1)
+    rep.check(bool(chk) and bool(rd) and all(pr.bdominates(chk[0], r_.block) for r_ in rd), 'R-C05-7r', 'parity_read: valid_size test dominates pread', pr.file, '', function='parity_read', construct='valid_size gate')
     rep.notes.append('R-C05-6 (hash-length agreement, F4) is not armed: suspected, not replayed')
 
 
